@@ -563,8 +563,15 @@ def r01m(R):
     # documented start values of the registers a script can name
     values = {}
     for n in walk_own(init.node):
-        if isinstance(n, ast.Assign) and self_attr(n.targets[0]):
-            values.setdefault(n.targets[0].attr, []).append(n.value)
+        if isinstance(n, ast.Assign):
+            for t in n.targets:         # a = b = 0.0 assigns every target
+                for tt in (t.elts if isinstance(t, (ast.Tuple, ast.List)) else [t]):
+                    if self_attr(tt) and not isinstance(t, (ast.Tuple, ast.List)):
+                        values.setdefault(tt.attr, []).append(n.value)
+                    elif self_attr(tt) and isinstance(n.value, (ast.Tuple, ast.List)) \
+                            and len(n.value.elts) == len(t.elts):
+                        values.setdefault(tt.attr, []).append(
+                            n.value.elts[t.elts.index(tt)])
     for w in sorted(words):
         if w == 'default':
             continue
